@@ -673,10 +673,34 @@ fn gen_c14(ctx: &mut Ctx) {
         let head: String = (0..k).map(|i| format!("{} {}", addrs[i], str_style(styles[i]))).collect::<Vec<_>>().join(" ");
         let blocks = config_blocks();
         let mut failed = false;
+        // every other walk opens with a scripted stretch that leaves the first sign with hidden luggage, then carries on at
+        // random: a configured sign whose pixel transfer (one whole page buffered, or half a page, or a page and a chunk) is
+        // cut off by StartReset, by nothing at all, or by a wrong count -- followed by offset-0 data meant for the others
+        let mut scripted: VecDeque<String> = VecDeque::new();
+        if wk % 2 == 1 {
+            let a0 = addrs[0];
+            scripted.extend([format!("RO.{}.RCF", a0), format!("SD.0.{}", blocks[0].0), "DC.1".to_string(), format!("RO.{}.RPX", a0)]);
+            let nchunks = [6usize, 3, 7, 6][(wk / 2) % 4];
+            for i in 0..nchunks {
+                scripted.push_back(format!("SD.{}.{}", i * 16, chunk(16, i + wk)));
+            }
+            match (wk / 8) % 3 {
+                0 => scripted.push_back(format!("RO.{}.SRS", a0)),
+                1 => {}
+                _ => scripted.push_back("DC.99".to_string()),
+            }
+            if k > 1 {
+                let a1 = addrs[1];
+                scripted.extend([format!("RO.{}.RCF", a1), format!("SD.0.{}", blocks[1].0), "DC.1".to_string(), format!("RO.{}.RPX", a1), format!("SD.0.{}", chunk(16, 1)), format!("SD.16.{}", chunk(16, 2))]);
+            } else {
+                scripted.extend([format!("SD.0.{}", chunk(16, 1)), format!("SD.0.{}", blocks[1].0)]);
+            }
+            scripted.extend([format!("QS.{}", a0), format!("HE.{}", a0)]);
+        }
         for _ in 0..steps {
             let target = if rng.chance(1, 8) { *rng.pick(&absent).max(&if addrs.contains(&0) { 9 } else { 0 }) } else { *rng.pick(&addrs) };
             let ti = addrs.iter().position(|a| *a == target);
-            let m: String = match rng.below(14) {
+            let m: String = if let Some(m) = scripted.pop_front() { m } else { match rng.below(14) {
                 12 => format!("UN.{}.{}.-", target, rng.pick(&[6u8, 1, 2, 9])),
                 13 => format!("UN.{}.{}.{}", target, rng.pick(&[0u8, 1, 6]), chunk(rng.pick(&[1usize, 2, 16]).clone(), 5)),
                 0 => format!("HE.{}", target),
@@ -713,7 +737,7 @@ fn gen_c14(ctx: &mut Ctx) {
                     format!("DC.{}", shadows[i].chunks)
                 }
                 _ => format!("DC.{}", rng.below(4)),
-            };
+            } };
             let msg = msg_of_str(&m);
             let before: Vec<VirtualSign<'static>> = (0..k).map(|i| bus.sign(i).clone()).collect();
             for i in 0..k {
